@@ -14,4 +14,15 @@ t = open('/verif/tools/seed_prompt.md').read()
 for k, v in {"@ID@": pid, "@IDL@": pid.lower(), "@TITLE@": p['title'], "@STATEMENT@": p['statement'], "@QUANT@": p['quantifier']['text'],
              "@WHY@": p['why_tests_cant'], "@ANCHORS@": anch, "@WT@": wt, "@OUT@": out, "@N@": n}.items():
     t = t.replace(k, v)
+# second and later rounds: name the mechanisms other contributors already used (titles only), to be avoided
+import glob, os
+taken = []
+for mp in sorted(glob.glob(f'/verif/seeded/{pid}-*/meta.json')):
+    try:
+        taken.append(json.load(open(mp)).get('title', ''))
+    except Exception:
+        pass
+if taken and os.environ.get('SEED_ROUND2'):
+    t += "\n## Already taken\n\nOther contributors already delivered changes with these mechanisms; yours must be DIFFERENT ideas in different places (do not submit variants of these):\n" + "\n".join(f"* {x}" for x in taken if x) + "\n"
+    t = t.replace(f"seed_{pid.lower()}_change", f"seed_{pid.lower()}_r2_change")
 print(t)
